@@ -276,7 +276,9 @@ func headerString(f *Func) string {
 		fmt.Fprintf(buf, " partition %s", quote(f.Partition))
 	}
 	if f.Comdat != nil {
-		if f.Comdat.Name == f.Name() {
+		// The implicit form denotes the comdat named after the function; an
+		// unnamed function has no name to share.
+		if !f.IsUnnamed() && f.Comdat.Name == f.GlobalName {
 			buf.WriteString(" comdat")
 		} else {
 			fmt.Fprintf(buf, " %s", f.Comdat)
